@@ -251,14 +251,18 @@ def compare_dtype(pd, np, want, got):
     return None
 
 
-def run_tables(ctx, side):
+TABLE_PARTS = {"writer": ("spec", "gcm_names", "infer"), "both": ("spec", "gcm_names", "infer", "compose", "override", "names", "prealloc")}
+
+
+def run_tables(ctx, side, parts=None):
     with warnings.catch_warnings():
         warnings.simplefilter("ignore")
-        return _run_tables(ctx, side)
+        return _run_tables(ctx, side, tuple(parts) if parts is not None else TABLE_PARTS[side])
 
 
-def _run_tables(ctx, side):
-    """side: 'writer' (spec of the entries) | 'both' (+ composition with the reader)"""
+def _run_tables(ctx, side, parts):
+    """parts: spec (entries vs the pandas specification), gcm_names, infer (object columns), compose (written -> footer -> handle), override,
+    names, prealloc (column requests in any order)"""
     from runtime.harness import import_fastparquet
     fp = import_fastparquet()
     import numpy as np
@@ -268,11 +272,15 @@ def _run_tables(ctx, side):
     rows = dtype_rows(pd, np)
     n_posed = 0
     for row in rows:
+        if not ({"spec", "compose", "override"} & set(parts)):
+            break
         D, ser = row["name"], row["ser"]
         t0 = time.time()
         nm_spec = f"get_column_metadata.entry_matches_pandas_spec[{D}]"
+        md = None
         try:
-            md = util.get_column_metadata(ser.rename("x"), "x", object_dtype=None if row["oenc"] == "infer" else row["oenc"])
+            if "spec" in parts:
+                md = util.get_column_metadata(ser.rename("x"), "x", object_dtype=None if row["oenc"] == "infer" else row["oenc"])
         except Exception as ex:
             md = None
             res.add(nm_spec, REFUTED, {"raises": f"{type(ex).__name__}: {ex}"[:200]}, time.time() - t0, EXEC,
@@ -320,11 +328,9 @@ def _run_tables(ctx, side):
                     "the entry is {name, field_name, pandas_type, numpy_type, metadata} with the specification's values for this dtype"
                     + ("; deviations: " + "; ".join(why) if why else ""))
             n_posed += 1
-        if side != "both":
-            continue
         # ---- composition with the reader ------------------------------------------------------------------------------------------
         want = row["canon"] or ser.dtype
-        for as_index in (False, True):
+        for as_index in ((False, True) if "compose" in parts else ()):
             nm = f"metadata.roundtrip_dtype[{D}{' as index' if as_index else ''}]"
             t0 = time.time()
             try:
@@ -383,6 +389,8 @@ def _run_tables(ctx, side):
                         + (f" - {why_alloc}" if why_alloc else ""))
                 n_posed += 1
         # ---- dtypes override --------------------------------------------------------------------------------------------------------
+        if "override" not in parts:
+            continue
         nm = f"dtypes.override_is_honoured[{D}]"
         t0 = time.time()
         try:
@@ -413,7 +421,7 @@ def _run_tables(ctx, side):
         n_posed += 1
     # ---- names ------------------------------------------------------------------------------------------------------------------------
     ser = pd.Series([1, 2, 3])
-    for label, name, want in (("text", "col", "col"), ("empty text", "", ""), ("text with dots and spaces", "a.b c", "a.b c"),
+    for label, name, want in () if "gcm_names" not in parts else (("text", "col", "col"), ("empty text", "", ""), ("text with dots and spaces", "a.b c", "a.b c"),
                               ("tuple", ("a", "x"), "('a', 'x')"), ("int", 0, TypeError), ("None", None, TypeError), ("bytes", b"c", TypeError),
                               ("float", 1.5, TypeError)):
         t0 = time.time()
@@ -426,10 +434,11 @@ def _run_tables(ctx, side):
         res.add(f"get_column_metadata.name[{label}]", PROVED if ok else REFUTED, None if ok else {"name": repr(name), "got": repr(got)},
                 time.time() - t0, EXEC, "a text name is kept verbatim (name == field_name), a tuple becomes its text, anything else raises TypeError")
         n_posed += 1
-    if side == "both":
-        for r in names_rows(fp, pd, np):
-            res.add(*r)
-            n_posed += 1
+    for part, rows_fn in (("names", names_rows), ("prealloc", prealloc_rows), ("infer", infer_rows)):
+        if part in parts:
+            for r in rows_fn(fp, pd, np):
+                res.add(*r)
+                n_posed += 1
     ctx.vacuity["covers"] += n_posed
     return res
 
@@ -640,9 +649,15 @@ class LstV(Obj):
         s = self.st(p)
         if s["base"] is None and not s["items"]:
             return z3.BoolVal(False)
-        if s["base"] is None and all(isinstance(x, (Str, NoneV, PyI, PyB)) for x in s["items"]):
+        if s["base"] is None and all(isinstance(x, (Str, NoneV, PyI, PyB)) or (isinstance(x, Custom) and hasattr(x.h, "eq")) for x in s["items"]):
             return z3.Or(*[eng.equal(item, x, p, None) for x in s["items"]])
         raise Unsupported("membership in a list of unknown contents")
+
+    def binop(self, eng, p, op, b, node, swapped=False):
+        st_ = self.st(p)
+        if isinstance(op, ast.Mult) and isinstance(b, (PyI, PyB)) and st_["base"] is None and len(st_["items"]) == 1:
+            return Custom(ConstList(st_["items"][0], eng.as_int(b, p, node)))
+        raise Unsupported("list operator")
 
     def eq(self, eng, p, other):
         if isinstance(other, Custom) and hasattr(other.h, "eq") and not isinstance(other.h, LstV):
@@ -652,6 +667,17 @@ class LstV(Obj):
             if a["base"] is None and b["base"] is None and not a["items"] and not b["items"]:
                 return z3.BoolVal(True)
         raise Unsupported("list comparison")
+
+
+class ConstList:
+    """[x] * n"""
+    tracked = False
+
+    def __init__(self, elt, n):
+        self.elt, self.n = elt, n
+
+    def len(self, eng, p):
+        return PyI(self.n)
 
 
 class DictV(Obj):
@@ -1087,6 +1113,14 @@ class MEng(Engine):
 
     def e_Call(self, e, p):
         fn = e.func
+        if isinstance(fn, ast.Attribute) and isinstance(fn.value, ast.Name) and isinstance(p.env.get(fn.value.id), Opt) \
+                and isinstance(p.env[fn.value.id].val, Custom):
+            o = p.env[fn.value.id]
+            self.oblige(p, f"{self.cur_func}.no_attr_of_None@L{e.lineno}", "safety", z3.Not(o.isnone), e)
+            out = []
+            for q, (args, kw) in self.ev_args(e, p):
+                out += o.val.h.call_method(self, q, fn.attr, args, kw, e)
+            return out
         if isinstance(fn, ast.Attribute) and isinstance(fn.value, ast.Name) and fn.value.id == "parquet_thrift" \
                 and fn.attr[:1].isupper() and "parquet_thrift" not in p.env:
             out = []
@@ -1189,6 +1223,7 @@ def mm_handlers(w):
         if not args or not (isinstance(args[0], Custom) and isinstance(args[0].h, SerV)):
             raise Unsupported("find_type called with something that is not a column of the frame")
         bad = raise_path(p.fork(), "ValueError", node)
+        bad.ghost["find_type_refused"] = True
         src = args[0].h.src
         se = RecV("SchemaElement", node.lineno).init(p, {
             "name": Custom(NormName(src, kw.get("is_index", NONE))),
@@ -1530,6 +1565,10 @@ def run_make_metadata(ctx, funcs, timeout, scen):
     n_ret = n_raise = 0
     j0 = z3.Int("witness_column")
     for q in outs:
+        if q.ghost.get("find_type_refused"):
+            eng.oblige(q, P + "refusal_of_find_type_propagates", "post", z3.BoolVal(q.ctl == ("raise", "ValueError")), None,
+                       "a column find_type refuses (unsupported dtype, object column whose encoding cannot be inferred) makes make_metadata raise that "
+                       "ValueError: no metadata is returned, and make_metadata itself touches no file")
         if q.ctl[0] == "raise":
             n_raise += 1
             continue
@@ -1719,16 +1758,32 @@ def run_find_type_tail(ctx, funcs, timeout):
         return [(p, Custom(NormName(("find_type", args[0]), args[1] if len(args) > 1 else NONE)))]
 
     def h_infer(eng, p, args, kw, node):
-        return [(p, Opaque(("inferred", next(_cnt))))]
+        bad = raise_path(p.fork(), "ValueError", node)
+        bad.ghost["infer_refused"] = True
+        p.ghost["infer_calls"] = p.ghost.get("infer_calls", []) + [list(args)]
+        return [(p, Opaque(("inferred", next(_cnt)))), (bad, Opaque("raised"))]
     eng = MEng(funcs=funcs, handlers={"norm_col_name": h_norm, "infer_object_encoding": h_infer}, opaque_calls=True)
     data = Opaque("data")
     ii = Opaque("is_index")
     outs = eng.run("find_type", Path(), [data], {"fixed_text": Opaque("fixed_text"), "object_encoding": Opaque("object_encoding"),
                                                    "times": Opaque("times"), "is_index": ii})
     n = 0
+    n_inf = n_ref = 0
     for q in outs:
+        if q.ghost.get("infer_refused"):
+            n_ref += 1
+            eng.oblige(q, "find_type.refusal_of_infer_object_encoding_propagates", "post", z3.BoolVal(q.ctl == ("raise", "ValueError")), None,
+                       "a ValueError of infer_object_encoding (element type not in its table, mixed types) leaves find_type as that ValueError: "
+                       "nothing catches it, no element is built for the column")
         if q.ctl[0] != "ret":
             continue
+        b_o, b_inf = q.opq.get(("streq", ("data", "dtype"), "O")), q.opq.get(("streq", "object_encoding", "infer"))
+        calls_ = q.ghost.get("infer_calls", [])
+        okc = len(calls_) == 1 and len(calls_[0]) == 1 and calls_[0][0] is data
+        n_inf += 1 if okc else 0
+        if b_o is not None and b_inf is not None:
+            eng.oblige(q, "find_type.object_encoding_is_inferred_from_the_column_itself", "post", z3.Implies(z3.And(b_o, b_inf), z3.BoolVal(bool(okc))), None,
+                       "an object column under object_encoding='infer': the encoding is infer_object_encoding(data) of THIS column, asked before the element is built")
         n += 1
         v = q.ctl[1]
         se = v.items[0].h if isinstance(v, Tup) and len(v.items) == 2 and isinstance(v.items[0], Custom) and isinstance(v.items[0].h, RecV) else None
@@ -1748,6 +1803,10 @@ def run_find_type_tail(ctx, funcs, timeout):
     discharge(res, eng, timeout)
     if n == 0:
         res.add("find_type.returns_on_some_path", UNKNOWN, None, 0.0, "engine", "no returning path")
+    if n_inf == 0 or n_ref == 0:
+        res.add("find_type.object_encoding_is_inferred_from_the_column_itself", REFUTED if n else UNKNOWN, {"paths_calling_infer_object_encoding": n_inf,
+                                                                                                        "refusal_paths": n_ref}, 0.0, "trace",
+                "no path of find_type asks infer_object_encoding(data) (vacuity guard of the call-site obligations)")
     ctx.vacuity["covers"] += n
     return res
 
@@ -2394,37 +2453,76 @@ class ScalarNotDtype(Sym):
     pass
 
 
+NROWS = z3.Function("num_rows_of_row_group", I, I)
+STAT_NONE = z3.Function("chunk_statistics_missing", I, I, B)          # (row group, chunk position)
+NULLS_REC = z3.Function("chunk_null_count_nonzero", I, I, B)
+
+
+def has_nulls_or_no_statistics(g, idx):
+    """row group g is non-empty and the chunk at position idx has no statistics or records a non-zero null count"""
+    return z3.And(NROWS(g) != 0, z3.Or(STAT_NONE(g, idx), NULLS_REC(g, idx)))
+
+
 class RGsV(Sym):
-    """self.row_groups inside the nullable branch: one arbitrary row group; `num_nulls` is the only loop-carried value (0 until a break)"""
+    """self.row_groups inside the nullable branch, for ALL numbers of row groups: ONE arbitrary row group g with the loop-carried flag
+    (`num_nulls`) havoc'd: F0 = "an earlier row group was non-empty and had nulls / no statistics".  Posed:
+      starts_without_nulls_found     the flag is falsy before the first row group
+      invariant_preserved            an iteration that goes on to the next row group leaves  flag <=> F0 or HAS(g)
+      stops_early_only_when_nulls_were_found     an iteration that BREAKS leaves the flag truthy, and truthy only with F0 or HAS(g)
+    By induction over the row groups: after the loop the flag is truthy IFF some non-empty row group has nulls / no statistics
+    (a break with a truthy flag skips nothing that could change it)."""
 
     def for_loop(self, eng, p, st):
         assigned = sorted(stored_names(st.body) | {n.id for n in ast.walk(st.target) if isinstance(n, ast.Name)})
+        ctx_ = p.ghost.get("dt_ctx")
+        if ctx_ is None or ctx_[0] != "main":
+            raise Unsupported("loop over the row groups outside the column loop of _dtypes")
+        k = ctx_[1]
+        carried = [v for v in assigned if v in p.env and v != "st"]
+        flags = [v for v in carried if isinstance(p.env[v], (PyI, PyB))]
+        if len(flags) != 1:
+            raise Unsupported(f"null scan: expected one loop-carried flag, found {flags}")
+        fl = flags[0]
         outs = []
-        nn = p.env.get("num_nulls")
-        eng.oblige(p, "dtypes.null_scan.starts_without_nulls_found", "inv", z3.BoolVal(isinstance(nn, PyI) and z3.is_true(z3.simplify(nn.z == 0))), st,
-                   "the scan over the row groups starts with num_nulls == 0 (loop invariant: still 0 while the loop runs)")
+        eng.oblige(p, "dtypes.null_scan.starts_without_nulls_found", "inv", z3.Not(eng.truth(p.env[fl], p)), st,
+                   "the scan over the row groups of a column starts with the flag falsy (nothing carried over from the previous column)")
+
+        def havoc(q, flag):
+            for v in assigned:
+                if v != fl:
+                    q.env[v] = Opaque(f"havoc_{v}!{next(_cnt)}")
+            q.env[fl] = PyB(flag)
+        # ---- all row groups done without a break
         e = p.fork()
-        for v in assigned:
-            if v != "num_nulls":
-                e.env[v] = Opaque(f"havoc_{v}!{next(_cnt)}")
-        e.ghost["null_scan"] = "no row group with nulls / without null count"
+        fend = fresh_bool("nulls_found_in_some_row_group")
+        havoc(e, fend)
+        e.ghost["null_scan"] = "exhausted"
         outs.append(e)
+        # ---- ONE arbitrary row group
         b = p.fork()
-        for v in assigned:
-            if v != "num_nulls":
-                b.env[v] = Opaque(f"havoc_{v}!{next(_cnt)}")
+        f0 = fresh_bool("nulls_found_in_an_earlier_row_group")
+        havoc(b, f0)
         g = fresh_int("row_group")
+        b.pc += [g >= 0, NROWS(g) >= 0]
+        has = has_nulls_or_no_statistics(g, k)
+        note = ("HAS(g) = row group g has rows and the column's chunk has no statistics or a non-zero null count; F0 = the flag when the "
+                "iteration starts (arbitrary)")
         for b1 in eng.assign(st.target, Custom(RGv(g)), b):
             for r in eng.block(st.body, [b1]):
-                if r.ctl == "break":
-                    r.ctl = None
-                    r.ghost["null_scan"] = "break"
-                    outs.append(r)
-                elif r.ctl in (None, "continue"):
-                    r.ctl = None
-                    v = r.env.get("num_nulls")
-                    eng.oblige(r, "dtypes.null_scan.invariant_preserved", "inv", z3.BoolVal(isinstance(v, PyI) and z3.is_true(z3.simplify(v.z == 0))), st,
-                               "an iteration that does not break leaves num_nulls == 0")
+                if r.ctl == "break" or r.ctl in (None, "continue"):
+                    v = r.env.get(fl)
+                    t = eng.truth(v, r) if v is not None else z3.BoolVal(False)
+                    if r.ctl == "break":
+                        eng.oblige(r, "dtypes.null_scan.stops_early_only_when_nulls_were_found", "inv", z3.And(t, t == z3.Or(f0, has)), st,
+                                   "the scan may stop before the last row group only with the flag set (later row groups cannot unset it): a break "
+                                   "with a falsy flag would hide nulls of every later row group - e.g. of row groups APPENDED later. " + note)
+                        r.ctl = None
+                        r.ghost["null_scan"] = "break"
+                        outs.append(r)
+                    else:
+                        eng.oblige(r, "dtypes.null_scan.invariant_preserved", "inv", t == z3.Or(f0, has), st,
+                                   "after row group g (not breaking) the flag is truthy IFF it was before or g is a non-empty row group whose chunk has "
+                                   "nulls / no statistics: with the entry condition, by induction: flag <=> EXISTS such a row group. " + note)
                 else:
                     outs.append(r)
         return outs
@@ -2437,15 +2535,14 @@ class RGv(Sym):
     def getitem(self, eng, p, i, node):
         k = z3.simplify(eng.as_int(i, p, node))
         if z3.is_int_value(k) and k.as_long() == 3:
-            n = z3.Int(f"num_rows_of_row_group({self.g})")
-            return PyI(n)
+            return PyI(NROWS(self.g))
         if z3.is_int_value(k) and k.as_long() == 1:
             return Custom(ChunksV(self.g))
         raise Unsupported("row group field")
 
     def attr(self, eng, p, name):
         if name == "num_rows":
-            return PyI(z3.Int(f"num_rows_of_row_group({self.g})"))
+            return PyI(NROWS(self.g))
         if name == "columns":
             return Custom(ChunksV(self.g))
         raise Unsupported("row group." + name)
@@ -2483,26 +2580,57 @@ class ChunkV(Sym):
 
 
 class CMDv(Sym):
+    """chunk.meta_data ([3]): .get(12) / .statistics is the Statistics struct or None"""
+
+    def __init__(self, ch):
+        self.ch = ch
+
+    def _stats(self):
+        return Opt(STAT_NONE(self.ch.g, self.ch.idx), Custom(StatsV(self.ch)))
+
+    def call_method(self, eng, p, name, args, kw, node):
+        if name == "get" and args:
+            k = z3.simplify(eng.as_int(args[0], p, node)) if isinstance(args[0], (PyI, PyB)) else None
+            if k is not None and z3.is_int_value(k) and k.as_long() == 12:
+                return [(p, self._stats())]
+            return [(p, Opt(fresh_bool("field_is_None"), Opaque(("meta_data.get", next(_cnt)))))]
+        raise Unsupported("column meta data." + name)
+
+    def attr(self, eng, p, name):
+        if name == "statistics":
+            return self._stats()
+        return Opt(fresh_bool(name + "_is_None"), Opaque(("meta_data." + name, next(_cnt))))
+
+
+class StatsV(Sym):
     def __init__(self, ch):
         self.ch = ch
 
     def call_method(self, eng, p, name, args, kw, node):
-        if name == "get":
-            return [(p, Opt(fresh_bool("statistics_is_None"), Custom(StatsV())))]
-        raise Unsupported("column meta data." + name)
-
-    def attr(self, eng, p, name):
-        return Opt(fresh_bool(name + "_is_None"), Custom(StatsV()))
-
-
-class StatsV(Sym):
-    def call_method(self, eng, p, name, args, kw, node):
-        if name == "get":
-            return [(p, Opaque(("null_count", next(_cnt))))]
+        if name == "get" and args:
+            k = z3.simplify(eng.as_int(args[0], p, node)) if isinstance(args[0], (PyI, PyB)) else None
+            if k is not None and z3.is_int_value(k) and k.as_long() == 3:
+                return [(p, Custom(NullCountV(self.ch)))]
+            return [(p, Opaque(("statistics.get", next(_cnt))))]
         raise Unsupported("statistics." + name)
 
     def attr(self, eng, p, name):
+        if name == "null_count":
+            return Custom(NullCountV(self.ch))
         return Opaque(("statistics." + name, next(_cnt)))
+
+
+class NullCountV(Sym):
+    """null_count of the chunk: None (absent) and 0 are falsy"""
+
+    def __init__(self, ch):
+        self.ch = ch
+
+    def truth(self, eng, p):
+        return NULLS_REC(self.ch.g, self.ch.idx)
+
+    def is_none(self, eng, p):
+        return fresh_bool("null_count_is_None")
 
 
 def dtypes_main_loop(eng, p, st, d):
@@ -3017,7 +3145,11 @@ def run_write_callsite(ctx, funcs, timeout):
     def rec(kind):
         def h(eng, p, args, kw, node):
             p.ghost["trace"] = p.ghost.get("trace", []) + [(kind, list(args), dict(kw))]
-            return [(p, Custom(RecV("FileMetaData", node.lineno).init(p, {"key_value_metadata": NONE})) if kind == "make_metadata" else NONE)]
+            if kind == "make_metadata":
+                bad = raise_path(p.fork(), "ValueError", node)
+                bad.ghost["metadata_refused"] = True
+                return [(p, Custom(RecV("FileMetaData", node.lineno).init(p, {"key_value_metadata": NONE}))), (bad, Opaque("raised"))]
+            return [(p, NONE)]
         return h
     handlers = {"get_fs": lambda e, p, a, k, n: [(p, Tup([Opaque("fs"), a[0], a[1], a[2]]))],
                 "getattr": lambda e, p, a, k, n: [(p, NONE)],
@@ -3032,6 +3164,12 @@ def run_write_callsite(ctx, funcs, timeout):
                     "append": PyB(False), "custom_metadata": NONE, "file_scheme": Opaque("file_scheme"), "times": Opaque("times")})
     n = 0
     for q in outs:
+        if q.ghost.get("metadata_refused"):
+            trn = [t[0] for t in q.ghost.get("trace", [])]
+            eng.oblige(q, "write.metadata_is_built_before_the_target_is_touched[a refusal leaves it untouched]", "post",
+                       z3.BoolVal(q.ctl == ("raise", "ValueError") and "write_simple" not in trn and "write_multi" not in trn), None,
+                       "when make_metadata refuses the frame (duplicate / non-text names, unsupported dtype, object column whose encoding cannot be "
+                       "inferred) write() raises with neither write_simple nor write_multi called: an existing dataset at the target stays as it was")
         if q.ctl[0] != "ret":
             continue
         tr = q.ghost.get("trace", [])
@@ -3077,6 +3215,9 @@ def run_write_callsite(ctx, funcs, timeout):
            z3.BoolVal(bool(ok_ig)) if simple is None else z3.If(simple, z3.BoolVal(bool(isinstance(ig, Custom) and isinstance(ig.h, LstV))), z3.BoolVal(ig is part)),
            "hive / drill: the partition columns get no schema element (ignore_columns=partition_on); simple: nothing is ignored")
         names = [t[0] for t in tr]
+        wpos = [i_ for i_, t_ in enumerate(names) if t_ in ("write_simple", "write_multi")]
+        ob("metadata_is_built_before_the_target_is_touched", z3.BoolVal(bool(wpos) and names.index("make_metadata") < min(wpos)),
+           "make_metadata(...) - and with it every refusal of the frame - runs BEFORE write_simple / write_multi (the only calls that open the target)")
         ck = [t for t in tr if t[0] == "check_column_names"]
         okc = len(ck) == 1 and names.index("check_column_names") < names.index("make_metadata") and len(ck[0][1]) == 5 \
             and isinstance(ck[0][1][0], Custom) and isinstance(ck[0][1][0].h, ColsW) and ck[0][1][0].h.fr is data and ck[0][1][1] is part
@@ -3092,15 +3233,539 @@ def run_write_callsite(ctx, funcs, timeout):
     return res
 
 
+
+# ---- api._pre_allocate: the lists handed to dataframe.empty -------------------------------------------------------------------------------
+class AList(Obj):
+    """[elt(member) for member in coll if guard] (+ what was .extend()ed later): position k of the list is the k-th kept member of coll"""
+    kind = "alist"
+
+    def __init__(self, comp):
+        super().__init__()
+        self.elt, self.guard, self.coll = comp.elt, comp.guard, comp.coll
+
+    def ext(self, p):
+        return p.ghost.get(self.key, [])
+
+    def arbitrary(self, eng, p):
+        if self.ext(p):
+            raise Unsupported("iteration over a list that was extended")
+        p.pc.append(self.guard)
+        return self.elt
+
+    def call_method(self, eng, p, name, args, kw, node):
+        if name == "extend" and len(args) == 1:
+            p.ghost[self.key] = self.ext(p) + [args[0]]
+            return [(p, NONE)]
+        raise Unsupported("list." + name)
+
+    def len(self, eng, p):
+        n = fresh_int("len_list")
+        p.pc.append(n >= 0)
+        return PyI(n)
+
+    def truth(self, eng, p):
+        return fresh_bool("list_nonempty")
+
+    def isinstance(self, eng, p, tn):
+        return z3.BoolVal("list" in tn)
+
+
+class GT(Sym):
+    """get_type(name, index)"""
+
+    def __init__(self, name, index):
+        self.name, self.index = name, index
+
+
+def run_pre_allocate(ctx, funcs, timeout):
+    res = Results()
+    ININDEX = z3.Function("label_in_index", T, B)
+    INCATG = z3.Function("label_in_requested_categories", T, B)
+    NCS = z3.Int("n_partition_columns_read")
+    INCS = z3.Function("label_is_partition_column_read", T, B)
+    CAT_TRUTHY, CAT_DICT = z3.Bool("categories_truthy"), z3.Bool("categories_is_dict")
+    IDX_TRUTHY = z3.Bool("index_truthy")
+
+    class ReqCols(Sym):
+        def arbitrary(self, eng, p):
+            return Custom(Label(z3.Const(f"requested_column!{next(_cnt)}", T), ("req",)))
+
+    class IdxL(Sym):
+        def isinstance(self, eng, p, tn):
+            return z3.BoolVal("list" in tn)
+
+        def truth(self, eng, p):
+            return IDX_TRUTHY
+
+        def contains(self, eng, p, item):
+            return ININDEX(item.h.term)
+
+        def arbitrary(self, eng, p):
+            return Custom(Label(z3.Const(f"index_name!{next(_cnt)}", T), ("idx",)))
+
+    class IdxS(Label):
+        def isinstance(self, eng, p, tn):
+            return z3.BoolVal(tn == "str")
+
+        def truth(self, eng, p):
+            return z3.BoolVal(True)
+
+    class CategD(Sym):
+        def truth(self, eng, p):
+            return CAT_TRUTHY
+
+        def isinstance(self, eng, p, tn):
+            return CAT_DICT if "dict" in tn else z3.BoolVal(False)
+
+        def contains(self, eng, p, item):
+            return INCATG(item.h.term)
+
+    class CsD(Sym):
+        def call_method(self, eng, p, name, args, kw, node):
+            if name == "copy" and not args:
+                c = CatsCopy(self)
+                return [(p, Custom(c))]
+            raise Unsupported("cs." + name)
+
+        def len(self, eng, p):
+            return PyI(NCS)
+
+        def contains(self, eng, p, item):
+            return INCS(item.h.term)
+
+    class CatsCopy(Obj):
+        kind = "catscopy"
+
+        def __init__(self, of):
+            super().__init__()
+            self.of = of
+
+        def call_method(self, eng, p, name, args, kw, node):
+            if name == "update" and len(args) == 1:
+                p.ghost[self.key] = p.ghost.get(self.key, []) + [args[0]]
+                return [(p, NONE)]
+            raise Unsupported("cats." + name)
+
+    class DtD(Sym):
+        def getitem(self, eng, p, i, node):
+            if isinstance(i, Custom) and isinstance(i.h, Label):
+                return Custom(DtOf(i.h))
+            raise Unsupported("dt[...]")
+
+        def arbitrary(self, eng, p):
+            return Custom(Label(z3.Const(f"dtypes_key!{next(_cnt)}", T), ("dt",)))
+
+        def contains(self, eng, p, item):
+            return fresh_bool("in_dt")
+
+    class DtOf(Sym):
+        def __init__(self, lab):
+            self.lab = lab
+
+    class MEngA(MEng):
+        def s_FunctionDef(self, st, p):
+            return [p]                      # get_type: a handler here (cut), its body is run on its own below
+
+        def e_ListComp(self, e, p):
+            out = []
+            for q, v in super().e_ListComp(e, p):
+                if isinstance(v, Custom) and isinstance(v.h, AbstractComp):
+                    v = Custom(AList(v.h))
+                out.append((q, v))
+            return out
+    P = "pre_allocate."
+    for variant in ("index list", "index text"):
+        OBJS.clear()
+        req, cs, dt, categ = ReqCols(), CsD(), DtD(), CategD()
+        idx = IdxL() if variant == "index list" else IdxS(z3.Const("index_name_given", T), ("idx",))
+        calls = []
+
+        def h_get_type(eng, p, args, kw, node):
+            ix = kw.get("index", args[1] if len(args) > 1 else PyB(False))
+            return [(p, Custom(GT(args[0], ix)))]
+
+        def h_empty(eng, p, args, kw, node):
+            def ob(name, goal, note=""):
+                eng.oblige(p, P + name, "post", goal, node, note)
+            dts = args[0].h if args and isinstance(args[0], Custom) and isinstance(args[0].h, AList) else None
+            cols = kw.get("cols")
+            cols = cols.h if isinstance(cols, Custom) and isinstance(cols.h, AList) else None
+            # ---- data columns: same generator, same order, same filter
+            same_src = dts is not None and cols is not None and isinstance(dts.coll, Custom) and dts.coll.h is cols \
+                and isinstance(dts.elt, Custom) and isinstance(dts.elt.h, GT) and dts.elt.h.name is cols.elt \
+                and isinstance(dts.elt.h.index, PyB) and z3.is_false(z3.simplify(dts.elt.h.index.z))
+            ob("dtype_list_is_aligned_with_column_list",
+               z3.And(z3.BoolVal(bool(same_src)), dts.guard if same_src else z3.BoolVal(False)),
+               "as handed to dataframe.empty: for every position k, dtypes[k] == get_type(cols[k]): the dtype list is built by ONE pass over the column "
+               "list itself (same members, same order, no filter) - a list built from another iteration source (e.g. the dtype mapping in "
+               "schema order) is aligned only if that source provably has the caller's order, which nothing guarantees for a column subset")
+            ec = cols.ext(p) if cols is not None else None
+            ed = dts.ext(p) if dts is not None else None
+            ok_tail = ec is not None and ed is not None and len(ec) == 1 and len(ed) == 1 and isinstance(ec[0], Custom) and ec[0].h is cs \
+                and isinstance(ed[0], Custom) and isinstance(ed[0].h, ConstList) and isinstance(ed[0].h.elt, Str) and ed[0].h.elt.s == "category"
+            ob("partition_columns_appended_with_category_at_the_same_positions",
+               z3.And(z3.BoolVal(bool(ok_tail)), ed[0].h.n == NCS if ok_tail else z3.BoolVal(False)),
+               "after the data columns: cols gets the partition columns read (cs, in its order) and dtypes gets exactly len(cs) times 'category'")
+            okc = cols is not None and isinstance(cols.coll, Custom) and cols.coll.h is req and isinstance(cols.elt, Custom) and isinstance(cols.elt.h, Label) \
+                and cols.elt.h.src == ("req",)
+            if okc:
+                t = cols.elt.h.term
+                inidx = ININDEX(t) if variant == "index list" else t == idx.term
+                want = z3.Not(z3.And(IDX_TRUTHY, inidx)) if variant == "index list" else z3.Not(inidx)
+            ob("columns_are_the_requested_columns_minus_index_in_request_order",
+               z3.And(z3.BoolVal(bool(okc)), z3.And(z3.Implies(cols.guard, want), z3.Implies(z3.And(want, z3.Not(INCS(t))), cols.guard)) if okc else z3.BoolVal(False)),
+               "cols = the columns requested, in the caller's order, without the index columns: every requested column that is neither an index nor a "
+               "partition column is kept, no index column is (a requested partition column may be dropped here: the partition columns are appended)")
+            # ---- index
+            names, types = kw.get("index_names"), kw.get("index_types")
+            if variant == "index list":
+                ty = types.h if isinstance(types, Custom) and isinstance(types.h, AList) else None
+                full = ty is not None and isinstance(names, Custom) and names.h is idx and isinstance(ty.coll, Custom) and ty.coll.h is idx \
+                    and isinstance(ty.elt, Custom) and isinstance(ty.elt.h, GT) and isinstance(ty.elt.h.name, Custom) and isinstance(ty.elt.h.name.h, Label) \
+                    and ty.elt.h.name.h.src == ("idx",) and isinstance(ty.elt.h.index, PyB) and z3.is_true(z3.simplify(ty.elt.h.index.z)) \
+                    and z3.is_true(z3.simplify(ty.guard))
+                none = isinstance(names, Custom) and isinstance(names.h, LstV) and not names.h.st(p)["items"] and \
+                    ((isinstance(types, Tup) and not types.items) or (isinstance(types, Custom) and isinstance(types.h, LstV) and not types.h.st(p)["items"]))
+                ob("index_types_aligned_with_index_names", z3.If(IDX_TRUTHY, z3.BoolVal(bool(full)), z3.BoolVal(bool(none))),
+                   "index_types[k] == get_type(index[k], index=True) for the index list handed over as index_names (both empty without an index)")
+            else:
+                one = isinstance(names, Custom) and isinstance(names.h, LstV) and len(names.h.st(p)["items"]) == 1 and names.h.st(p)["items"][0].h is idx
+                its = types.items if isinstance(types, Tup) else (types.h.st(p)["items"] if isinstance(types, Custom) and isinstance(types.h, LstV) else None)
+                okt = its is not None and len(its) == 1 and isinstance(its[0], Custom) and isinstance(its[0].h, GT) and isinstance(its[0].h.name, Custom) \
+                    and its[0].h.name.h is idx and isinstance(its[0].h.index, PyB) and z3.is_true(z3.simplify(its[0].h.index.z))
+                ob("index_types_aligned_with_index_names", z3.BoolVal(bool(one and okt)),
+                   "one index name given as text: index_names == [name], index_types == [get_type(name, index=True)]")
+            cv = kw.get("cats")
+            okk = isinstance(cv, Custom) and isinstance(cv.h, CatsCopy) and cv.h.of is cs
+            ups = p.ghost.get(cv.h.key, []) if okk else []
+            ob("label_map_is_partitions_plus_requested_category_labels",
+               z3.And(z3.BoolVal(bool(okk)), z3.If(z3.And(CAT_TRUTHY, CAT_DICT), z3.BoolVal(len(ups) == 1 and isinstance(ups[0], Custom) and ups[0].h is categ),
+                                                   z3.BoolVal(len(ups) == 0 or (len(ups) == 1 and isinstance(ups[0], Custom) and isinstance(ups[0].h, DictV))))),
+               "cats = a COPY of the partition label map, updated with the requested categories when they come as {column: labels}")
+            calls.append(1)
+            return [(p, Tup([Opaque("df"), Opaque("views")]))]
+        eng = MEngA(funcs=funcs, handlers={"get_type": h_get_type, "dataframe.empty": h_empty}, opaque_calls=True)
+        p = Path()
+        p.pc += [NCS >= 0]
+        outs = eng.run("_pre_allocate", p, [Opaque("size"), Custom(req), Custom(categ), Custom(idx), Custom(cs), Custom(dt)],
+                       {"tz": Opaque("tz"), "columns_dtype": Opaque("columns_dtype")})
+        discharge(res, eng, timeout, rename=lambda nm: nm.replace("_pre_allocate.", P) if nm.startswith("_pre_allocate.") else nm)
+        if not calls:
+            res.add(P + f"hands_the_lists_to_dataframe_empty[{variant}]", UNKNOWN, None, 0.0, "engine", "dataframe.empty is never reached (vacuity guard)")
+        ctx.vacuity["covers"] += len(calls)
+    # ---- get_type on its own -----------------------------------------------------------------------------------------------------------
+    ISIDX_, MASKED = z3.Bool("index_flag"), z3.Bool("dtype_is_masked")
+    categ, dt = CategD(), DtD()
+
+    def h_isinstance(eng, p, args, kw, node):
+        if isinstance(args[0], Custom) and isinstance(args[0].h, DtOf):
+            return [(p, PyB(MASKED))]
+        return BUILTINS["isinstance"](eng, p, args, kw, node)
+    eng = MEng(funcs=funcs, handlers={"isinstance": h_isinstance}, opaque_calls=True)
+    nm = Label(z3.Const("the_name", T), ("name",))
+    outs = eng.run("_pre_allocate.get_type", Path(), [Custom(nm), PyB(ISIDX_)], {}, closure={"categories": Custom(categ), "dt": Custom(dt)})
+    for q in outs:
+        if q.ctl[0] != "ret":
+            continue
+        v = q.ctl[1]
+        is_cat = isinstance(v, Str) and v.s == "category"
+        is_own = isinstance(v, Custom) and isinstance(v.h, DtOf) and v.h.lab is nm
+        is_i64 = isinstance(v, Str) and v.s == "int64"
+        eng.oblige(q, P + "get_type.category_iff_requested_else_the_predicted_dtype_of_that_name", "post",
+                   z3.If(INCATG(nm.term), z3.BoolVal(is_cat), z3.If(z3.And(ISIDX_, MASKED), z3.BoolVal(is_i64), z3.BoolVal(is_own))), None,
+                   "get_type(name): 'category' when name is a requested category, else dt[name] - the prediction for THAT name (a masked dtype of an "
+                   "index: 'int64', an index cannot be masked)")
+    discharge(res, eng, timeout)
+    ctx.vacuity["covers"] += len(outs)
+    return res
+
+
+def prealloc_rows(fp, pd, np):
+    """executed: pre_allocate for permuted / subset column requests"""
+    from fastparquet import writer
+    out = []
+    df = pd.DataFrame({"i": [1, 2, 3], "f": [1.5, 2.5, 3.5], "s": ["a", "b", "c"], "t": pd.to_datetime(["2020-01-01", "2020-01-02", "2020-01-03"]),
+                       "b": [True, False, True], "c": pd.Categorical(["u", "v", "u"])}, index=pd.Index([10, 20, 30], name="k"))
+    data = df.reset_index()
+    fmd = footer_roundtrip(fp, writer.make_metadata(data, index_cols=["k"], cols_dtype=df.columns.dtype))
+    reqs = [("all columns, file order", list(data.columns), None), ("all columns, reversed", list(data.columns)[::-1], None),
+            ("subset in file order", ["i", "s", "b"], None), ("subset, reversed", ["b", "s", "i"], None), ("subset, shuffled", ["t", "i", "c", "f"], None),
+            ("two columns swapped", ["f", "i"], None), ("subset with the index column last", ["f", "i", "k"], ["k"]),
+            ("subset, reversed, index column first", ["k", "c", "f"], ["k"]), ("reversed, index disabled", ["b", "f", "k"], False)]
+    for label, req, index in reqs:
+        t0 = time.time()
+        nm = f"pre_allocate.allocation_follows_the_requested_column_order[{label}]"
+        why = None
+        try:
+            pf = stub_handle(fp, fmd)
+            pred = dict(pf.dtypes)
+            ix = pf._get_index(index) if index is not False else []
+            df0, views = pf.pre_allocate(3, list(req), None, ix)          # to_pandas: index = self._get_index(index), then pre_allocate(.., index)
+            want = [c for c in req if c not in (ix or [])]
+            if list(df0.columns) != want:
+                why = f"columns {list(df0.columns)} instead of {want}"
+            else:
+                for c in want:
+                    w = compare_dtype(pd, np, pred[c], df0[c].dtype)
+                    if w:
+                        why = f"column {c}: predicted {pred[c]}, allocated {df0[c].dtype} ({w})"
+                        break
+                if not why and ix and (list(df0.index.names) != list(ix) or compare_dtype(pd, np, pred[ix[0]], df0.index.dtype)):
+                    why = f"index {df0.index.names} {df0.index.dtype}"
+        except Exception as ex:
+            why = f"raises {type(ex).__name__}: {str(ex)[:120]}"
+        out.append((nm, REFUTED if why else PROVED, {"request": req, "index": index, "why": why} if why else None, time.time() - t0, EXEC,
+                    "the frame allocated for a column request in THIS order has these columns in this order, each with the dtype the handle predicts "
+                    "for it" + (f" - {why}" if why else "")))
+    return out
+
+
+
+# ---- writer.infer_object_encoding ------------------------------------------------------------------------------------------------------------
+def run_infer_object_encoding(ctx, funcs, timeout):
+    """abstract element sequence: ONE arbitrary element with the loop-carried (t, s) havoc'd under the invariant
+         (t is None <=> s == 0)  and  0 <= s <= 10  and  [t is not None => t is the encoding of every typed element seen]"""
+    res = Results()
+    P = "infer_object_encoding."
+    TY = z3.Function("type_of_element", I, I)                 # a type code
+    INTAB = z3.Function("type_is_in_the_table", I, B)
+    ENC = z3.Function("encoding_of_type", I, I)               # encoding code of a type of the table
+    NULLT = [z3.Function(f"element_null_test_{n}", I, B) for n in ("is_None", "is_pd_NA", "is_pd_NaT", "is_np_nan", "pd_isna")]
+    table = {}
+
+    class TypeV(Sym):
+        def __init__(self, t):
+            self.t = t
+
+    class EncV(Sym):
+        def __init__(self, e):
+            self.e = e
+
+        def eq(self, eng, p, other):
+            if isinstance(other, Custom) and isinstance(other.h, EncV):
+                return self.e == other.h.e
+            if isinstance(other, NoneV):
+                return z3.BoolVal(False)
+            if isinstance(other, Opt):
+                return z3.And(z3.Not(other.isnone), self.eq(eng, p, other.val))
+            raise Unsupported("encoding compared with " + type(other).__name__)
+
+    class Encs(Sym):
+        def contains(self, eng, p, item):
+            if isinstance(item, Custom) and isinstance(item.h, TypeV):
+                return INTAB(item.h.t)
+            raise Unsupported("membership of something that is not a type in the table")
+
+        def getitem(self, eng, p, i, node):
+            if isinstance(i, Custom) and isinstance(i.h, TypeV):
+                eng.oblige(p, P + f"table_lookup_only_for_listed_types@L{node.lineno}", "safety", INTAB(i.h.t), node)
+                return Custom(EncV(ENC(i.h.t)))
+            raise Unsupported("table[...]")
+
+        def call_method(self, eng, p, name, args, kw, node):
+            if name == "get" and args and isinstance(args[0], Custom) and isinstance(args[0].h, TypeV):
+                dflt = args[1] if len(args) > 1 else NONE
+                if not isinstance(dflt, NoneV):
+                    raise Unsupported("table.get with a default")
+                return [(p, Opt(z3.Not(INTAB(args[0].h.t)), Custom(EncV(ENC(args[0].h.t)))))]
+            raise Unsupported("table." + name)
+
+    class Elem(Sym):
+        def __init__(self, k):
+            self.k = k
+
+        def is_none(self, eng, p):
+            return NULLT[0](self.k)
+
+        def identical(self, eng, p, other):
+            if isinstance(other, Opaque) and isinstance(other.tag, tuple) and len(other.tag) == 2:
+                nm = {("global:pd", "NA"): 1, ("global:pd", "NaT"): 2, ("global:np", "nan"): 3}.get(other.tag)
+                if nm is not None:
+                    return NULLT[nm](self.k)
+            return None
+
+    def is_null(k):
+        return z3.Or(*[f(k) for f in NULLT])
+
+    class DataV(Sym):
+        def attr(self, eng, p, name):
+            if name == "empty":
+                return PyB(z3.Bool("data_is_empty"))
+            return Opaque(("data", name))
+
+        def for_loop(self, eng, p, st):
+            assigned = sorted(stored_names(st.body) | {n.id for n in ast.walk(st.target) if isinstance(n, ast.Name)})
+            t0, s0 = p.env.get("t"), p.env.get("s")
+            eng.oblige(p, P + "loop.invariant_on_entry", "inv",
+                       z3.BoolVal(isinstance(t0, NoneV) and isinstance(s0, PyI) and z3.is_true(z3.simplify(s0.z == 0))), st,
+                       "before the first element: no encoding yet (t is None) and no typed element counted (s == 0)")
+            outs = []
+
+            def havoc(q):
+                tn, te, sv = fresh_bool("t_is_None"), fresh_int("t_encoding"), fresh_int("s")
+                for v in assigned:
+                    q.env[v] = Opaque(f"havoc_{v}!{next(_cnt)}")
+                q.env["t"] = Opt(tn, Custom(EncV(te)))
+                q.env["s"] = PyI(sv)
+                q.pc += [tn == (sv == 0), 0 <= sv, sv <= 10]
+                return tn, te, sv
+            e = p.fork()
+            tn, te, sv = havoc(e)
+            e.ghost["exit"] = (tn, te, sv)
+            outs.append(e)
+            b = p.fork()
+            tn, te, sv = havoc(b)
+            k = fresh_int("element")
+            for b1 in eng.assign(st.target, Custom(Elem(k)), b):
+                for r in eng.block(st.body, [b1]):
+                    ty = TY(k)
+
+                    def ob(name, goal, note=""):
+                        eng.oblige(r, P + name, "post", goal, st, note)
+                    if isinstance(r.ctl, tuple) and r.ctl[0] == "raise":
+                        ob("raises_only_for_an_unknown_or_a_second_element_type",
+                           z3.And(z3.BoolVal(r.ctl[1] == "ValueError"), z3.Not(is_null(k)),
+                                  z3.Or(z3.Not(INTAB(ty)), z3.And(z3.Not(tn), te != ENC(ty)))),
+                           "ValueError only for a non-null element whose type is not in the table, or whose encoding differs from the one seen so far")
+                        r.ghost["refused"] = True
+                        outs.append(r)
+                        continue
+                    if r.ctl not in (None, "continue", "break"):
+                        outs.append(r)
+                        continue
+                    t1, s1 = r.env.get("t"), r.env.get("s")
+                    s1z = eng.as_int(s1, r) if isinstance(s1, (PyI, PyB)) else None
+                    if isinstance(t1, Opt) and isinstance(t1.val, Custom) and isinstance(t1.val.h, EncV):
+                        t1n, t1e = t1.isnone, t1.val.h.e
+                    elif isinstance(t1, Custom) and isinstance(t1.h, EncV):
+                        t1n, t1e = z3.BoolVal(False), t1.h.e
+                    elif isinstance(t1, NoneV):
+                        t1n, t1e = z3.BoolVal(True), te
+                    else:
+                        t1n = t1e = None
+                    shape = s1z is not None and t1n is not None
+                    ob("rejects_unknown_element_type", z3.Or(is_null(k), INTAB(ty)),
+                       "a non-null element whose type is not in the encoding table never gets past its iteration: ValueError (tuples, sets, complex, "
+                       "custom objects ... are refused HERE, before anything is written)")
+                    ob("rejects_mixed_element_types", z3.Or(is_null(k), z3.Not(INTAB(ty)), tn, te == ENC(ty)),
+                       "a typed element whose encoding differs from the one inferred so far never gets past its iteration: ValueError")
+                    ob("null_elements_are_skipped", z3.Implies(is_null(k), z3.And(z3.BoolVal(bool(shape)), (t1n == tn) if shape else False,
+                                                                                  z3.Implies(z3.Not(tn), t1e == te) if shape else False,
+                                                                                  (s1z == sv) if shape else False)),
+                       "None / NA / NaT / nan leave the inference state untouched (not counted)")
+                    ob("typed_element_sets_or_confirms_the_encoding", z3.Implies(z3.And(z3.Not(is_null(k)), INTAB(ty)),
+                                                                                 z3.And(z3.BoolVal(bool(shape)), z3.Not(t1n) if shape else False,
+                                                                                        (t1e == ENC(ty)) if shape else False, (s1z == sv + 1) if shape else False)),
+                       "a non-null element of a listed type: the result becomes (stays) the table's encoding of its type and it is counted")
+                    if r.ctl == "break":
+                        ob("stops_only_after_more_than_ten_typed_elements", (s1z > 10) if s1z is not None else z3.BoolVal(False),
+                           "the scan stops early only after 11 typed elements agreed")
+                        r.ctl = None
+                        r.ghost["exit"] = (t1n, t1e, s1z)
+                        outs.append(r)
+                    else:
+                        ob("loop.invariant_preserved", z3.And(z3.BoolVal(bool(shape)), (t1n == (s1z == 0)) if shape else False,
+                                                               z3.And(0 <= s1z, s1z <= 10) if shape else False),
+                           "(t is None <=> s == 0) and 0 <= s <= 10 when the loop goes on")
+            return outs
+
+    class MEngT(MEng):
+        def e_Dict(self, e, p):
+            if e.keys and all(isinstance(k, (ast.Name, ast.Attribute)) for k in e.keys) and all(isinstance(v, ast.Constant) and isinstance(v.value, str) for v in e.values):
+                table.update({ast.unparse(k): v.value for k, v in zip(e.keys, e.values)})
+                return [(p, Custom(Encs()))]
+            return super().e_Dict(e, p)
+    eng = MEngT(funcs=funcs, handlers={"type": lambda e, p, a, k, n: [(p, Custom(TypeV(TY(a[0].h.k))))] if a and isinstance(a[0], Custom) and isinstance(a[0].h, Elem)
+                                       else [(p, Opaque(("type", next(_cnt))))],
+                                       "pd.isna": lambda e, p, a, k, n: [(p, PyB(NULLT[4](a[0].h.k)))] if a and isinstance(a[0], Custom) and isinstance(a[0].h, Elem)
+                                       else [(p, Opaque(("isna", next(_cnt))))]}, opaque_calls=True)
+    outs = eng.run("infer_object_encoding", Path(), [Custom(DataV())])
+    n = 0
+    for q in outs:
+        if q.ctl[0] != "ret":
+            continue
+        n += 1
+        v = q.ctl[1]
+        ex = q.ghost.get("exit")
+        if ex is None:
+            eng.oblige(q, P + "empty_column_is_text", "post", z3.And(z3.Bool("data_is_empty"), z3.BoolVal(isinstance(v, Str) and v.s == "utf8")), None,
+                       "an empty column: 'utf8' (nothing to infer from)")
+            continue
+        tn, te, sv = ex
+        if isinstance(v, Opt) and isinstance(v.val, Custom) and isinstance(v.val.h, EncV):
+            vn, ve = v.isnone, v.val.h.e
+        elif isinstance(v, Custom) and isinstance(v.h, EncV):
+            vn, ve = z3.BoolVal(False), v.h.e
+        elif isinstance(v, NoneV):
+            vn, ve = z3.BoolVal(True), te
+        else:
+            vn = ve = None
+        eng.oblige(q, P + "result_is_the_encoding_inferred_None_only_without_typed_elements", "post",
+                   z3.BoolVal(False) if vn is None else z3.And(vn == tn, z3.Implies(z3.Not(tn), ve == te), vn == (sv == 0)), None,
+                   "the result is the loop's t: None only when NO typed (non-null) element was seen, else the one encoding all typed elements share")
+    discharge(res, eng, timeout)
+    want = {"str": "utf8", "bytes": "bytes", "list": "json", "dict": "json", "bool": "bool", "Decimal": "decimal", "int": "int", "float": "float",
+            "np.floating": "float", "np.str_": "utf8"}
+    res.add(P + "table_is_the_documented_type_table", PROVED if table == want else REFUTED, None if table == want else {"table": table}, 0.0, "ast",
+            "the element-type table: str / np.str_ -> utf8, bytes -> bytes, list / dict -> json, bool -> bool, Decimal -> decimal, int -> int, float / np.floating -> float")
+    if n == 0:
+        res.add(P + "returns_on_some_path", UNKNOWN, None, 0.0, "engine", "no returning path")
+    ctx.vacuity["covers"] += n
+    return res
+
+
+def infer_rows(fp, pd, np):
+    """executed: infer_object_encoding / find_type(object_encoding='infer') / make_metadata on object columns of each element kind"""
+    from decimal import Decimal
+    from fastparquet import writer
+
+    class Thing:
+        pass
+    rows = [("text", ["a", "b"], "utf8"), ("bytes", [b"a"], "bytes"), ("lists", [[1], [2]], "json"), ("dicts", [{"a": 1}], "json"),
+            ("list and dict", [[1], {"a": 1}], "json"), ("bools", [True, False], "bool"), ("Decimal", [Decimal("1.5")], "decimal"), ("ints", [1, 2], "int"),
+            ("floats", [1.5, 2.5], "float"), ("np.str_", [np.str_("a")], "utf8"), ("text after missing cells", [None, np.nan, "a"], "utf8"),
+            ("only missing cells", [None, None], None), ("text and int", ["a", 1], ValueError), ("int and bool", [1, True], ValueError),
+            ("tuples", [(1, 2), (3, 4)], ValueError), ("sets", [{1}, {2}], ValueError), ("complex", [1j, 2j], ValueError),
+            ("custom objects", [Thing(), Thing()], ValueError), ("text then a tuple", ["a", (1,)], ValueError),
+            ("tuple after missing cells", [None, (1, 2)], ValueError), ("twelve texts then an int", ["a"] * 12 + [1], "utf8")]
+    out = []
+    for label, vals, want in rows:
+        t0 = time.time()
+        ser = pd.Series(vals, dtype=object, name="x")
+        try:
+            got = writer.infer_object_encoding(ser)
+        except Exception as ex:
+            got = type(ex)
+        ok = got is want if isinstance(want, type) else got == want
+        out.append((f"infer_object_encoding.table[{label}]", PROVED if ok else REFUTED, None if ok else {"values": repr(vals)[:80], "got": repr(got), "expected": repr(want)},
+                    time.time() - t0, EXEC, "infer_object_encoding on an object column of these elements: the table's encoding / ValueError for an element type "
+                    "that is not in the table or for mixed types" + ("" if ok else f" - got {got!r}, expected {want!r}")))
+        if want is ValueError:
+            t0 = time.time()
+            try:
+                writer.make_metadata(pd.DataFrame({"x": ser}), object_encoding="infer", index_cols=[])
+                got2 = "returned"
+            except Exception as ex:
+                got2 = type(ex).__name__
+            out.append((f"make_metadata.refuses_uninferable_object_column[{label}]", PROVED if got2 == "ValueError" else REFUTED,
+                        None if got2 == "ValueError" else {"values": repr(vals)[:80], "got": got2}, time.time() - t0, EXEC,
+                        "make_metadata(frame, object_encoding='infer') raises ValueError for this column - while building the metadata, i.e. before "
+                        "write() opens any file" + ("" if got2 == "ValueError" else f" - {got2}")))
+    return out
+
+
 # =================================================================================================================================
 #  check
 # =================================================================================================================================
-def check(ctx, timeout=10000, side="both", only=None):
-    """side: 'writer' (C02) | 'both' (C01, C17).  Every family runs on its own (guard)."""
+def check(ctx, timeout=10000, side="both", only=None, families=None, table_parts=None):
+    """side: 'writer' (C02) | 'both' (C01, C17).  families: None = all of the side, else the family-name prefixes to run (C06: pre_allocate,
+    C07: dtypes, C18: infer_object_encoding / find_type / write / make_metadata).  Every family runs on its own (guard)."""
     out = []
 
     def fam(name, thunk):
         if only and only not in name:
+            return
+        if families is not None and not name.startswith(tuple(families)):
             return
         out.extend(guard(name, thunk))
     mods = {}
@@ -3133,6 +3798,7 @@ def check(ctx, timeout=10000, side="both", only=None):
         return dict(mod("api.py")[0])
     fam("norm_col_name", lambda: run_norm_col_name(ctx, ufuncs("norm_col_name"), timeout))
     fam("find_type", lambda: (reg("writer.py", "find_type"), run_find_type_tail(ctx, dict(mod("writer.py")[0]), timeout))[1])
+    fam("infer_object_encoding", lambda: (reg("writer.py", "infer_object_encoding"), run_infer_object_encoding(ctx, dict(mod("writer.py")[0]), timeout))[1])
     fam("write", lambda: (reg("writer.py", "write"), run_write_callsite(ctx, dict(mod("writer.py")[0]), timeout))[1])
     fam("check_column_names", lambda: run_check_column_names(ctx, ufuncs("check_column_names"), timeout))
     if side == "both":
@@ -3145,6 +3811,8 @@ def check(ctx, timeout=10000, side="both", only=None):
         for mode in ("computed", "override"):
             fam(f"dtypes[{mode}]", lambda mode=mode: run_dtypes(ctx, afuncs("_dtypes"), timeout, mode))
         fam("typemap", lambda: (reg("converted_types.py", "typemap"), run_typemap_md(ctx, dict(mod("converted_types.py")[0]), timeout))[1])
+        fam("pre_allocate", lambda: (reg("api.py", "_pre_allocate", "_pre_allocate.get_type"), run_pre_allocate(ctx, dict(mod("api.py")[0]), timeout))[1])
+
     def tables():
         for rel, qns in (("util.py", ("get_column_metadata", "get_numpy_type", "reset_row_idx")),
                          ("api.py", ("ParquetFile.pre_allocate", "_pre_allocate")), ("dataframe.py", ("empty", "tz_to_dt_tz"))):
@@ -3154,7 +3822,7 @@ def check(ctx, timeout=10000, side="both", only=None):
                 f = mod(rel)[0].get(qn)
                 if f is not None:
                     ctx.function(f"{rel[:-3]}.{qn}", f.sha, dict(f.report, mode="executed, not symbolically"))
-        return run_tables(ctx, side)
+        return run_tables(ctx, side, table_parts)
     fam("tables", tables)
     return out
 
@@ -3163,6 +3831,13 @@ def check(ctx, timeout=10000, side="both", only=None):
 #  which property carries which obligation; recorded findings; native replay
 # =================================================================================================================================
 def props_of(name):
+    if name.startswith("dtypes.null_scan."):
+        return ("C17", "C01", "C07")
+    if name.startswith("pre_allocate."):
+        return ("C06", "C17", "C01")
+    if name.startswith(("infer_object_encoding.", "make_metadata.refuses_uninferable", "find_type.object_encoding_is_inferred", "find_type.refusal_of",
+                        "write.metadata_is_built_before", "make_metadata.refusal_of")) or ".refusal_of_find_type_propagates" in name:
+        return ("C18", "C01", "C17", "C02")
     if name.startswith("get_column_metadata."):
         return ("C02",)
     if name.startswith(("make_metadata", "norm_col_name.", "find_type.", "check_column_names.", "write.")):
@@ -3174,7 +3849,8 @@ def props_of(name):
 
 def function_of(name):
     for pre, fn in (("make_metadata", "writer.make_metadata"), ("norm_col_name", "util.norm_col_name"), ("find_type", "writer.find_type"),
-                    ("check_column_names", "util.check_column_names"), ("write.", "writer.write"), ("get_column_metadata", "util.get_column_metadata"),
+                    ("check_column_names", "util.check_column_names"), ("write.", "writer.write"), ("infer_object_encoding", "writer.infer_object_encoding"),
+                    ("pre_allocate.get_type", "api._pre_allocate.get_type"), ("pre_allocate.", "api._pre_allocate"), ("get_column_metadata", "util.get_column_metadata"),
                     ("columns.", "api.ParquetFile.columns"), ("get_index.", "api.ParquetFile._get_index"), ("ParquetFile._get_index", "api.ParquetFile._get_index"),
                     ("set_attrs.", "api.ParquetFile._set_attrs"), ("parse_header.", "api.ParquetFile._parse_header"),
                     ("pandas_metadata.", "api.ParquetFile.pandas_metadata"), ("has_pandas_metadata.", "api.ParquetFile.has_pandas_metadata"),
@@ -3302,6 +3978,61 @@ except ValueError: pass
 print("NATIVE", json.dumps(bad))
 '''
 
+NATIVE_APPEND = r'''
+import json, os, tempfile, numpy as np, pandas as pd
+from fastparquet import write, ParquetFile
+bad = []
+for scheme in ("simple", "hive"):
+    p = os.path.join(tempfile.mkdtemp(), "d.parq" if scheme == "simple" else "d")
+    write(p, pd.DataFrame({"id": pd.Series([1, 2, 3], dtype=object), "v": [1.0, 2.0, 3.0]}), file_scheme=scheme)
+    write(p, pd.DataFrame({"id": pd.Series([4, 5, 6], dtype=object), "v": [4.0, 5.0, 6.0]}), file_scheme=scheme, append=True)
+    write(p, pd.DataFrame({"id": pd.Series([7, None, 9], dtype=object), "v": [7.0, 8.0, 9.0]}), file_scheme=scheme, append=True)
+    pf = ParquetFile(p)
+    try:
+        out = pf.to_pandas()
+        if out["id"].isna().sum() != 1 or len(out) != 9: bad.append(f"{scheme}: read after append has {out['id'].isna().sum()} nulls in {len(out)} rows")
+    except Exception as ex:
+        bad.append(f"{scheme}: nulls only in the THIRD row group: handle announces id as {pf.dtypes['id']}; to_pandas raises {type(ex).__name__}: {str(ex)[:80]}")
+print("NATIVE", json.dumps(bad))
+'''
+
+NATIVE_SUBSET = r'''
+import json, os, tempfile, numpy as np, pandas as pd
+from fastparquet import write, ParquetFile
+bad = []
+p = os.path.join(tempfile.mkdtemp(), "s.parq")
+df = pd.DataFrame({"i": [1, 2, 3], "f": [1.5, 2.5, 3.5], "s": ["a", "b", "c"], "t": pd.to_datetime(["2020-01-01", "2020-01-02", "2020-01-03"])})
+write(p, df)
+pf = ParquetFile(p)
+for req in (["f", "i"], ["t", "s", "f", "i"], ["s", "i"], ["i", "f"]):
+    try:
+        out = ParquetFile(p).to_pandas(columns=list(req))
+        same = list(out.columns) == req and all(out[c].tolist() == df[c].tolist() and (df[c].dtype.kind in "OTU" or str(out[c].dtype) == str(df[c].dtype)) for c in req)
+        if not same: bad.append(f"columns={req}: dtypes {dict(out.dtypes.astype(str))}, values {out.iloc[0].tolist()} instead of {df[req].iloc[0].tolist()}")
+    except Exception as ex:
+        bad.append(f"columns={req}: raises {type(ex).__name__}: {str(ex)[:80]}")
+print("NATIVE", json.dumps(bad))
+'''
+
+NATIVE_REFUSE = r'''
+import json, os, tempfile, hashlib, numpy as np, pandas as pd
+from fastparquet import write, ParquetFile
+bad = []
+p = os.path.join(tempfile.mkdtemp(), "old.parq")
+write(p, pd.DataFrame({"x": ["a", "b"]}))
+before = hashlib.sha256(open(p, "rb").read()).hexdigest()
+for label, vals in (("tuples", [(1, 2), (3, 4)]), ("sets", [{1}, {2}]), ("complex", [1j, 2j]), ("text and int", ["a", 1])):
+    try:
+        write(p, pd.DataFrame({"x": pd.Series(vals, dtype=object)}))
+        bad.append(f"{label}: the write is accepted")
+    except Exception as ex:
+        after = hashlib.sha256(open(p, "rb").read()).hexdigest() if os.path.exists(p) else None
+        if after != before:
+            bad.append(f"{label}: refused with {type(ex).__name__} but the existing file was {'removed' if after is None else 'overwritten'} ({os.path.getsize(p) if after else 0} bytes left)")
+            write(p, pd.DataFrame({"x": ["a", "b"]})); before = hashlib.sha256(open(p, "rb").read()).hexdigest()
+print("NATIVE", json.dumps(bad))
+'''
+
 NATIVE_READER = r'''
 import json, numpy as np, pandas as pd
 from fastparquet import writer, api
@@ -3411,9 +4142,12 @@ def _native(code, only=None, without=()):
     return bool(bad), "native: " + ("; ".join(bad)[:700] if bad else "all native checks pass")
 
 
+EXEC_ROW = re.compile(r"^(pre_allocate\.allocation_follows|infer_object_encoding\.table\[|make_metadata\.refuses_uninferable)")
+
+
 def replay(name, model=None):
     """-> (confirmed on the real code: True / False / None = could not be run, text)"""
-    if name.startswith(("metadata.", "get_column_metadata.", "dtypes.override_is_honoured[")):
+    if name.startswith(("metadata.", "get_column_metadata.", "dtypes.override_is_honoured[")) or (EXEC_ROW.match(name) and False):
         why = (model or {}).get("why") if isinstance(model, dict) else None
         return True, "executed on the real functions (the table row IS the native run): " + str(why)[:400]
     if "element_name_is_text" in name:
@@ -3426,6 +4160,13 @@ def replay(name, model=None):
         return c, t
     if name.startswith("make_metadata") and any(k in name for k in ("column_entry_name_is_schema_element_name", "index_columns_one_entry", "index_columns_are_written")):
         return _native(NATIVE_TUPLE)
+    if name.startswith("dtypes.null_scan."):
+        return _native(NATIVE_APPEND)
+    if name.startswith("pre_allocate."):
+        return _native(NATIVE_SUBSET)
+    if name.startswith(("infer_object_encoding.", "make_metadata.refuses_uninferable", "find_type.object_encoding_is_inferred", "find_type.refusal_of",
+                        "write.metadata_is_built_before")) or "refusal_of_find_type" in name:
+        return _native(NATIVE_REFUSE)
     if name.startswith("write."):
         return _native(NATIVE_WRITE)
     if name.startswith(("make_metadata", "find_type.", "norm_col_name.", "check_column_names.")):
